@@ -71,9 +71,11 @@ def gen_cfg(sw: Stream, ra: Stream, methods=('pit', 'mps', 'sn'), weights=(4, 4,
 
 def other_cost(cfg, rs):
     if cfg['method'] == 'mps':
-        pool = ['single:params_bit', 'dict:params_bit+ops_bit', 'single:ops_bit']
+        pool = ['single:params_bit', 'dict:params_bit+ops_bit', 'single:ops_bit',
+                'dict:params_bit=ops_bit+ops_bit=params_bit']
     else:
-        pool = ['single:params', 'single:ops', 'dict:params+ops', 'single:ops_no_bias']
+        pool = ['single:params', 'single:ops', 'dict:params+ops', 'single:ops_no_bias',
+                'dict:params=params_no_bias+ops', 'dict:params+ops=ops_no_bias']
     pool = [p for p in pool if p != cfg['cost']]
     return rs.choice(pool)
 
@@ -147,6 +149,9 @@ def gen_base_op(cfg, rs, enabled, swarm):
         return {'op': 'softmax_opts', 'kw': gen_softmax_kw(cfg, rs)}
     if k == 'set_cost_spec':
         return {'op': 'set_cost_spec', 'name': other_cost(cfg, rs)}
+    if k == 'train_burst':
+        return {'op': 'train_burst', 'n': rs.randint(6, 12), 'which': rs.choice(['net', 'both', 'both']),
+                'lam': rs.choice([0.0, 1e-3]), 'lr': rs.choice([0.01, 0.05])}
     if k == 'ckpt':
         return {'op': rs.choice(['save_ckpt', 'load_ckpt', 'load_ckpt'])}
     if k == 'read_cost':
